@@ -242,6 +242,38 @@ def _captured_job(args):
             Xg = q_to_float(np.asarray(f(q_from_float(T), q_from_float(Bm))))
             # backward error: T Xg - B relative to |T||Xg|
             rec.units(t, "TX_eq_B", units(float(np.max(np.abs(omul(T, Xg) - Bm))), max(float(np.max(np.abs(T))) * float(np.max(np.abs(Xg))), 1e-300), 4 * k * k), loose=True)
+            # sparsity patterns of the off-diagonal part: rows without any off-diagonal entry after rows that have some
+            # (block diagonal, a decoupled unknown in the middle, random sparse), also through the component-form solve
+            k2 = int(rng.integers(3, 9))
+            for pat in ("block-diagonal", "decoupled-middle", "random-sparse", "diagonal"):
+                M = np.ones((k2, k2), dtype=bool)
+                if pat == "block-diagonal":
+                    h = k2 // 2
+                    M[:h, h:] = M[h:, :h] = False
+                elif pat == "decoupled-middle":
+                    c = k2 // 2
+                    M[c, :] = M[:, c] = False
+                elif pat == "random-sparse":
+                    M = rng.random((k2, k2)) < 0.3
+                else:
+                    M[:] = False
+                np.fill_diagonal(M, True)
+                Tp = rng.standard_normal((k2, k2, 4)) * M[..., None]
+                Tp = (np.triu if up else np.tril)(Tp.transpose(2, 0, 1)).transpose(1, 2, 0).copy()
+                for i in range(k2):
+                    Tp[i, i] = rng.standard_normal(4)
+                    Tp[i, i] *= 10.0 ** rng.uniform(-2, 2) / np.sqrt(np.sum(Tp[i, i] ** 2))
+                Xp = rng.standard_normal((k2, nr, 4))
+                Bp = omul(Tp, Xp)
+                t = rec.new(f.__name__, "sparse-pattern:%s" % pat, {"T": Tp.tolist(), "rhs": nr})
+                Xg = q_to_float(np.asarray(f(q_from_float(Tp), q_from_float(Bp))))
+                rec.units(t, "TX_eq_B", units(float(np.max(np.abs(omul(Tp, Xg) - Bp))), max(float(np.max(np.abs(Tp))) * float(np.max(np.abs(Xg))), 1e-300), 4 * k2 * k2), loose=True)
+                if up:
+                    t = rec.new("UtriangleQsparse", "sparse-pattern:%s" % pat, {"T": Tp.tolist(), "rhs": nr})
+                    with contextlib.redirect_stdout(io.StringIO()):
+                        out = L.utils.UtriangleQsparse(*comps(Tp), *comps(Bp.copy()))
+                    Xc = np.stack([np.asarray(o).reshape(k2, -1) for o in out], axis=-1)
+                    rec.units(t, "TX_eq_B", units(float(np.max(np.abs(omul(Tp, Xc) - Bp))), max(float(np.max(np.abs(Tp))) * float(np.max(np.abs(Xc))), 1e-300), 4 * k2 * k2), loose=True)
     return rec.events, rec.info
 
 
